@@ -5,7 +5,7 @@
    profile.  Code generation (opt-level) and struct layout (`packed`) do not exist in
    the model: for them the claim rests on the differential builds run by the check. *)
 From FP Require Import Machine SrcConsts Pow10 WideDiv Rounding Arith Cmp Unops IntForms Round RoundSpec Out ArithSpec Run.
-From FP Require Import MachineFacts RoundingFacts RoundFacts KernelContract MulFacts DivFacts WideMulFacts WideDivFacts FormsFacts Lt5Facts MagnitudeFacts.
+From FP Require Import MachineFacts RoundingFacts RoundFacts KernelContract MulFacts DivFacts WideMulFacts WideDivFacts FormsFacts Lt5Facts MagnitudeFacts ProfileFree.
 
 (* + - checked_add checked_sub % checked_rem, all comparisons, Decimal-by-integer
    products, integer conversions: after the fix: commits their models do not take the
@@ -96,6 +96,46 @@ Check C20_rounded_operations_every_profile :
     acc_dd m Bmulr x y n (run_dd pf m Bmulr x y n) = true /\
     acc_dd m Bquant x y 0 (run_dd pf m Bquant x y 0) = true.
 Print Assumptions C20_rounded_operations_every_profile.
+
+(* and that freedom is not used differently by different profiles: each of * / checked_mul
+   checked_div div_rounded mul_rounded quantize equals a closed-form function that does not
+   mention the profile (ProfileFree.cmr_fun / cdr_fun / wide_round), so the model's outcome -
+   value, None or panic - is identical in every profile, including at the coefficient -2^127
+   and for quantize's intermediate quotient *)
+Theorem C20_rounded_operations_profile_free :
+  forall pf1 pf2 m op x y n,
+    wf x = true -> wf y = true -> 0 <= n <= 255 ->
+    In op [Bmul; Bcmul; Bdiv; Bcdiv; Bdivr; Bmulr; Bquant] ->
+    run_dd pf1 m op x y n = run_dd pf2 m op x y n.
+Proof. exact rounded_ops_profile_free. Qed.
+Check C20_rounded_operations_profile_free :
+  forall pf1 pf2 m op x y n,
+    wf x = true -> wf y = true -> 0 <= n <= 255 ->
+    In op [Bmul; Bcmul; Bdiv; Bcdiv; Bdivr; Bmulr; Bquant] ->
+    run_dd pf1 m op x y n = run_dd pf2 m op x y n.
+Print Assumptions C20_rounded_operations_profile_free.
+
+Theorem C20_div_rounded_closed_form :
+  forall pf m cx px cy py n,
+    - MAXC <= cx <= MAXC -> - MAXC <= cy <= MAXC -> cy <> 0 ->
+    0 <= px <= 18 -> 0 <= py <= 18 -> 0 <= n <= 18 ->
+    checked_div_rounded pf m cx px cy py n = Val (cdr_fun m cx px cy py n).
+Proof. exact cdr_closed. Qed.
+Check C20_div_rounded_closed_form :
+  forall pf m cx px cy py n,
+    - MAXC <= cx <= MAXC -> - MAXC <= cy <= MAXC -> cy <> 0 ->
+    0 <= px <= 18 -> 0 <= py <= 18 -> 0 <= n <= 18 ->
+    checked_div_rounded pf m cx px cy py n = Val (cdr_fun m cx px cy py n).
+Print Assumptions C20_div_rounded_closed_form.
+
+Theorem C20_mul_rounded_closed_form :
+  forall pf m x y n, wf x = true -> wf y = true -> 0 <= n <= 18 ->
+    checked_mul_rounded pf m x y n = Val (cmr_fun m x y n).
+Proof. exact cmr_closed. Qed.
+Check C20_mul_rounded_closed_form :
+  forall pf m x y n, wf x = true -> wf y = true -> 0 <= n <= 18 ->
+    checked_mul_rounded pf m x y n = Val (cmr_fun m x y n).
+Print Assumptions C20_mul_rounded_closed_form.
 
 Example C20_nonvacuous :
   run_dd release RHalfEven Badd (mkdec MAXC 0) (mkdec 1 0) 0 = OP /\
